@@ -7,7 +7,7 @@ use ahash::{HashMap, HashMapExt, HashSet, HashSetExt};
 use smallvec::SmallVec;
 
 use super::*;
-use crate::array::{ArrayBuilderImpl, ArrayImpl, DataChunk, DataChunkBuilder, RowRef};
+use crate::array::{ArrayBuilderImpl, DataChunk, DataChunkBuilder, RowRef};
 use crate::types::{DataType, DataValue, Row};
 
 /// The executor for hash join
@@ -201,10 +201,7 @@ impl HashSemiJoinExecutor2 {
                 let b = if !has_null && let Some(rchunk) = key_set.get(&key) {
                     let lchunk = self.left_row_to_chunk(&lrow, rchunk.cardinality());
                     let join_chunk = lchunk.row_concat(rchunk.clone());
-                    let ArrayImpl::Bool(a) = Evaluator::new(&self.condition).eval(&join_chunk)?
-                    else {
-                        panic!("join condition should return bool");
-                    };
+                    let a = Evaluator::new(&self.condition).eval_condition(&join_chunk)?;
                     a.true_array().iter().any(|b| *b)
                 } else {
                     false
